@@ -1243,8 +1243,11 @@ def find_function(relfile, qualname, selector=None, extra_defs=()):
     docs = clang_dump(relfile, qualname, extra_defs)
     short = qualname.split('::')[-1]
     cands = []
+    statics = set()
 
     def visit(d):
+        if d.get('kind') == 'CXXMethodDecl' and d.get('name') == short and d.get('storageClass') == 'static':
+            statics.add(d['id'])
         if d.get('kind') in ('FunctionDecl', 'CXXMethodDecl', 'CXXConstructorDecl') and d.get('name') == short and has_body(d):
             cands.append(d)
         if d.get('kind') in ('FunctionTemplateDecl', 'ClassTemplateDecl', 'ClassTemplateSpecializationDecl',
@@ -1265,6 +1268,8 @@ def find_function(relfile, qualname, selector=None, extra_defs=()):
     if len(cands) > 1:
         raise ExtractionError('function %s ambiguous in %s: %s' %
                               (qualname, relfile, [d['type']['qualType'] for d in cands]))
+    if cands[0].get('previousDecl') in statics or cands[0]['id'] in statics:
+        cands[0]['storageClass'] = 'static'
     return cands[0]
 
 
@@ -1290,7 +1295,10 @@ def extract(cfg, target, specs):
     node = find_function(target['file'], target['name'], target.get('selector'),
                          tuple(target.get('defs', ())))
     cname = target['cname']
-    em = Emitter(cfg, node, cname, target.get('self'), specs.get(cname))
+    selfcls = target.get('self')
+    if node.get('kind') == 'CXXMethodDecl' and node.get('storageClass') == 'static':
+        selfcls = None   # static member function: no implicit object
+    em = Emitter(cfg, node, cname, selfcls, specs.get(cname))
     sig, text = em.function()
     exp = target.get('rules', {})
     for r, cnt in exp.items():
@@ -1303,6 +1311,29 @@ def extract(cfg, target, specs):
         'file': target['file'], 'line': source_pos(node, target['file']),
         'sha': hashlib.sha256(src).hexdigest()[:16],
     }
+
+
+def extract_global(cfg, relfile, name):
+    """a namespace-scope constant table (array of integer literals or a string literal) -> C definition"""
+    docs = clang_dump(relfile, name)
+    T = Types(cfg)
+    for d in docs:
+        if d.get('kind') == 'VarDecl' and d.get('name') == name and d.get('inner'):
+            c, arr, ref = T.ctype(d['type']['qualType'], d['type'].get('desugaredQualType'))
+            ini = d['inner'][0]
+            em = Emitter(cfg, {'type': {'qualType': 'void ()'}}, name)
+
+            def lit(n):
+                while n.get('kind') in ('ImplicitCastExpr', 'ConstantExpr', 'ParenExpr'):
+                    n = n['inner'][0]
+                return em.expr(n, Ctx(False))
+            if ini.get('kind') == 'InitListExpr':
+                vals = [lit(x) for x in ini.get('inner', [])]
+                return 'static const %s %s%s = { %s };\n' % (c, name, arr, ', '.join(vals))
+            if ini.get('kind') == 'StringLiteral':
+                return 'static const %s %s%s = %s;\n' % (c, name, arr, ini['value'])
+            return 'static const %s %s%s = %s;\n' % (c, name, arr, lit(ini))
+    raise ExtractionError('global %s not found in %s' % (name, relfile))
 
 
 if __name__ == '__main__':
